@@ -190,8 +190,10 @@ static inline int readline_putchar(struct readline *rl, char c)
             // TODO: Возможно тут некорректно отрабатывается комбинация rnrnrnrn
             if ((rl->last == '\n' || rl->last == '\r') && rl->last != c)
             {
+                // Вторая половина пары CRLF/LFCR. Выходим сразу, чтобы
+                // сброшенный last не был перезаписан в конце функции.
                 rl->last = 0;
-                retcode = READLINE_NOTHING;
+                return READLINE_NOTHING;
             }
             else
             {
